@@ -1,3 +1,148 @@
 import LocustModel.Proto
-/- Driver stub for C15 (replaced when the property's model is built). -/
-def main : IO Unit := LM.Proto.runDriver fun _ => "?\t?"
+import LocustModel.Disk.Routing
+import LocustModel.Disk.DiskProto
+/-
+  Driver for C15.  One input line → `<model> TAB <spec>`.
+
+    sub <max> <U> <cols> <queries>        cols: `name:size,…` | `[]`; U: `u` + dotted hex scalars that Rust classifies as
+                                          lowercase ∧ alphanumeric (non-ASCII only); queries: names
+        model = `m=<key>|<size>|<last>;… g=<name>,…;… r=<key|_>,…`   (metadata, groups, routed key per query)
+        spec  = `?` (structure is not prescribed by the property; the `lookup` line carries the oracle)
+    lookup <max> <U> <cols> <queries>     same input
+        model = spec = per query `f` (found: the routed file contains a column of that name) | `a` (absent)
+        spec: `f` exactly for the names of the partition.  The model side runs `loadColumn` over `writeSubpartitions`.
+    san <name> <impl-result>              model = `sanitize`; spec = OK | BAD <why> judged on the implementation's result
+    sanpair <a> <b> <ra> <rb>             spec: BAD if a ≠ b but ra = rb (two tables share a directory)
+    fname <id> <key>                      model = spec = `partitionFilename`
+    safe <U> <name>                       model = `isFilesystemSafe` as `true|false`; spec `?`
+    lower <from> <to>                     model = scalars in [from, to) whose lower-casing leaves a retained character,
+                                          as `<scalar>><retained name>,…`; spec `?`
+    paths <table> <id>:<key>,…            model = spec = sorted `dir/file` names expected under `tables/`
+    dirclash <t1> <id>:<key>,… <t2>       model = `clash` if the directory of table t2 is also a file of table t1, else `ok`;
+                                          implementation = `clash` if flushing t2 after t1 fails; spec = `ok`
+                                          (witness of the fixed finding C15-empty-table-name, kept in the corpus)
+    echo <text>                           model = `?`, spec = text (API-level oracle computed by the harness)
+-/
+namespace LM.DrvC15
+open LM LM.Proto LM.Routing LM.DiskProto
+
+def parseU (s : String) : Option (Nat → Bool) :=
+  match s.toList with
+  | 'u' :: rest =>
+      if rest.isEmpty then some fun _ => false
+      else (((String.ofList rest).splitOn ".").mapM hexNat?).map fun l => fun c => l.contains c
+  | _ => none
+
+def parseCol (s : String) : Option (Col Unit) :=
+  match s.splitOn ":" with
+  | [n, sz] => do
+      let name ← parseName? n
+      let size ← sz.toNat?
+      pure ⟨name, size, ()⟩
+  | _ => none
+
+def showMeta (m : SubMeta) : String := showName m.key ++ "|" ++ toString m.sizeBytes ++ "|" ++ showName m.lastColumn
+
+def semi (xs : List String) : String := if xs.isEmpty then "[]" else ";".intercalate xs
+
+def parseSub (toks : List String) : Option (Nat × (Nat → Bool) × List (Col Unit) × List Name) :=
+  match toks with
+  | [mx, u, cols, qs] => do
+      let max ← mx.toNat?
+      let U ← parseU u
+      let cs ← parseList parseCol cols
+      let q ← parseNameList? qs
+      pure (max, U, cs, q)
+  | _ => none
+
+def allowedB (c : Nat) : Bool :=
+  (97 ≤ c && c ≤ 122) || (48 ≤ c && c ≤ 57) || c == 95 || c == 45 || c == 46
+
+/-- The oracle for a sanitised directory name (the conjuncts of `C15_sanitize_safe`). -/
+def judgeSan (t r : Name) : String :=
+  if !(r.all allowedB) then "BAD character outside [a-z0-9_.-]"
+  else if r.length > 255 then "BAD longer than 255 bytes"
+  else if r.head? == some 46 then "BAD starts with a dot"
+  else if r.isEmpty then "BAD empty directory name"
+  else if r.head? == some 45 && r.length < 66 then "BAD leading dash outside the hash form"
+  else "OK"
+
+def parseParts (s : String) : Option (List (Nat × Name)) :=
+  parseList (fun s => match s.splitOn ":" with
+                      | [i, k] => do pure ((← i.toNat?), (← parseName? k))
+                      | _ => none) s
+
+def step (line : String) : String :=
+  match splitTokens line with
+  | "sub" :: rest =>
+      match parseSub rest with
+      | some (max, U, cols, qs) =>
+          let (metas, groups) := subpartition shaName U max cols
+          let m := semi (metas.map showMeta)
+          let g := semi (groups.map fun g => showList showName (g.map (·.name)))
+          let r := showList (fun q => showOpt showName (route metas q)) qs
+          s!"m={m} g={g} r={r}\t?"
+      | none => "bad-op\tbad-op"
+  | "lookup" :: rest =>
+      match parseSub rest with
+      | some (max, U, cols, qs) =>
+          let (metas, groups) := subpartition shaName U max cols
+          let fs := writeSubpartitions ([] : Files Unit) 7 metas groups
+          let got := showList (fun q => match loadColumn fs 7 metas q with | some _ => "f" | none => "a") qs
+          let want := showList (fun q => if (cols.map (·.name)).contains q then "f" else "a") qs
+          s!"{got}\t{want}"
+      | none => "bad-op\tbad-op"
+  | ["san", t, r] =>
+      match parseName? t, parseName? r with
+      | some t, some r =>
+          showName (sanitize shaName t) ++ "\t" ++ judgeSan t r
+      | _, _ => "bad-op\tbad-op"
+  | ["sanpair", a, b, ra, rb] =>
+      match parseName? a, parseName? b, parseName? ra, parseName? rb with
+      | some a, some b, some ra, some rb =>
+          let m := showName (sanitize shaName a) ++ "," ++ showName (sanitize shaName b)
+          m ++ "\t" ++ (if a ≠ b ∧ ra = rb then "BAD two table names share a directory" else "OK")
+      | _, _, _, _ => "bad-op\tbad-op"
+  | ["fname", id, k] =>
+      match id.toNat?, parseName? k with
+      | some id, some k => let f := showName (partitionFilename id k); f ++ "\t" ++ f
+      | _, _ => "bad-op\tbad-op"
+  | ["safe", u, n] =>
+      match parseU u, parseName? n with
+      | some U, some n => toString (isFilesystemSafe U n) ++ "\t?"
+      | _, _ => "bad-op\tbad-op"
+  | ["lower", a, b] =>
+      match a.toNat?, b.toNat? with
+      | some a, some b =>
+          let hits := (List.range (b - a)).filterMap fun i =>
+            let c := a + i
+            let r := lowerRetain c
+            if r.isEmpty then none else some (toHex c ++ ">" ++ showName r)
+          showList id hits ++ "\t?"
+      | _, _ => "bad-op\tbad-op"
+  | ["paths", t, parts] =>
+      match parseName? t, parseList (fun s => match s.splitOn ":" with
+                                              | [i, k] => do pure ((← i.toNat?), (← parseName? k))
+                                              | _ => none) parts with
+      | some t, some ps =>
+          let dir := sanitize shaName t
+          let files := ps.map fun (i, k) => showName (dir ++ [47] ++ partitionFilename i k)
+          let out := showList id (files.toArray.qsort (· < ·)).toList
+          out ++ "\t" ++ out
+      | _, _ => "bad-op\tbad-op"
+  | ["dirclash", t1, parts, t2] =>
+      -- does the directory of table t2 coincide with a file of table t1 (possible only if t1's directory name is empty)?
+      match parseName? t1, parseParts parts, parseName? t2 with
+      | some t1, some ps, some t2 =>
+          let d1 := sanitize shaName t1
+          let files := ps.map fun (i, k) => if d1.isEmpty then partitionFilename i k else d1 ++ [47] ++ partitionFilename i k
+          let clash := files.contains (sanitize shaName t2)
+          (if clash then "clash" else "ok") ++ "\t" ++
+            (if clash then "BAD two tables contend for one path" else "ok")
+      | _, _, _ => "bad-op\tbad-op"
+  | "echo" :: rest => "?\t" ++ " ".intercalate rest
+  | _ => "bad-op\tbad-op"
+
+end LM.DrvC15
+
+def main : IO Unit := LM.Proto.runDriver LM.DrvC15.step
